@@ -195,7 +195,7 @@ def best_cases(draw):
     sp = draw(gen.space_spec(max_d=5, max_m=30))
     d = len(sp["lo"])
     s = draw(gen.sampler_spec(kind="best", max_bs=5))
-    hs = draw(gen.history_spec(d, s["bs"], max_rows=s["bs"] + 6, losses=draw(st.sampled_from(["finite", "extreme", "inf"]))))
+    hs = draw(gen.history_spec(d, s["bs"], max_rows=s["bs"] + 6, losses=draw(st.sampled_from(["finite", "extreme", "inf", "signed_inf"]))))
     if draw(st.booleans()):  # put some parents on a bound
         for row in hs["idx"][: draw(st.integers(1, len(hs["idx"])))]:
             row[draw(st.integers(0, d - 1))] = draw(st.sampled_from([0, -1]))
